@@ -40,10 +40,15 @@ CHECKS = {
          "Seeded search over extend-split histories (dim 2-3, versions 0-2, splits before extend, automatic decision, single-dimension splitting, boundary on/off). After every step: leaves are boxes inside the domain, pairwise disjoint interiors, volumes sum to the domain, every refined leaf is tiled by its children, coarsening >= 0, seeded points (interior, faces, corners, domain boundary) are assigned to exactly one containing leaf, per leaf the computed component grids have coefficient sum 1 at every grid point, and __call__ reproduces a hash-valued function at leaf grid points not shared with another leaf. Known findings are keyed by version/lmin class, boundary flag and failing function.",
          "Trusted: harness monitors. Stubs: error-estimator answers, integrand values, clock. The library's own error-estimate machinery (parent split/extend operations) runs as real code.",
          "DESIGN.md section 5, C07"),
+ "C05": ("dimwise_sim", "exploration",
+         "deterministic simulation: histories of run / stop at a point limit / continue on the real drivers (dimension-wise, extend-split, standard, dimension-adaptive) under simulated environments; at every stop the reported value is compared with independent recomputations and with from-scratch re-evaluation",
+         "Seeded search over refinement histories with 1-3 stops through the documented limit mechanism, with recalculate_frequently forced to small periods in a share of runs (fast path skipped). At every stop: reported == sum of coefficient x component result recomputed independently (own composite trapezoid on the reported point lists for dimension-wise; a fresh grid instance and an un-cached integrand per leaf and component for extend-split, standard and dimension-adaptive), == evaluate_final_combi() twice (on a deep copy), == the same history with reevaluate_at_end=True, and sum w f over get_points_and_weights() for standard and dimension-wise. Three genuine defects found here were repaired (see known_findings.txt).",
+         "Trusted: harness recomputation, magnitude-based rounding bound. Stubs: integrand values, error-estimator answers, dimension-adaptive surplus answers, clock.",
+         "DESIGN.md section 5, C05"),
 }
 
 _P = "claimed by DESIGN.md but the check is not built yet in this tree; listed here until its engine is registered"
-PENDING = {k: _P for k in ["C05", "C12", "C13", "C14", "C15", "C17", "C18", "C19"]}
+PENDING = {k: _P for k in [ "C12", "C13", "C14", "C15", "C17", "C18", "C19"]}
 
 def main():
     checks = []
